@@ -26,7 +26,7 @@ type Opts = database.SearchOptions
 // uWords is the word alphabet W: one word per shortcut visible in the code.
 var uWords = []string{
 	"compress", "find", "files", "folder", "the", "x", "git", "dir", "tar", "qzx",
-	"install", "grep", "ls", "Git", "COMPRESS", "tar-x", "a.b", "café", "comprss", "list",
+	"install", "grep", "ls", "Git", "COMPRESS", "tar-x", "a.b", "café", "comprss", "list", "control", "version",
 }
 
 // uPool is the entry pool P. Entries collide on purpose (same token in
@@ -61,6 +61,8 @@ func uPool() []Cmd {
 		/*23*/ {Command: "echo x", Description: long, Keywords: []string{"echo"}},
 		/*24*/ {Command: "mkdir -p path/to/dir", Description: "Create a directory and parents", Keywords: []string{"create", "directory", "folder", "mkdir"}},
 		/*25*/ {Command: "café au lait", Description: "Serve café to the folder", Keywords: []string{"café"}, Tags: []string{"Drinks", "git"}},
+		/*26*/ {Command: "svn checkout url", Description: "Check out a working copy", Keywords: []string{"version control", "source code", "list"}, Tags: []string{"file management", "vcs tool"}},
+		/*27*/ {Command: "rsync -av src/ dst/", Description: "Mirror a folder", Keywords: []string{"copy-files fast", "a.b sync", "backup  files"}, Tags: []string{"Version Control"}},
 	}
 }
 
